@@ -435,9 +435,19 @@ def twin_reference(ctx, secs, scratch, tag, include, launch, got, where, inp):
     tw = literal_twin(secs)
     if tw is None:
         return None
-    tpath = write_version(tw, scratch, tag + 't', include)
-    with at_cwd(launch):
-        ref = L.parse_with(L.make_options(L.ENV_VARS), tpath, reread=True)
+    if include:
+        # sections spread over an included file see %(here)s = that file's directory, so the twin is parsed at the very same
+        # paths and the file itself (what is written under `tag` is `secs`) is put back afterwards
+        tpath = write_version(tw, scratch, tag, include)
+        try:
+            with at_cwd(launch):
+                ref = L.parse_with(L.make_options(L.ENV_VARS), tpath, reread=True)
+        finally:
+            write_version(secs, scratch, tag, include)
+    else:
+        tpath = write_version(tw, scratch, tag + 't', include)
+        with at_cwd(launch):
+            ref = L.parse_with(L.make_options(L.ENV_VARS), tpath, reread=True)
     ctx.count('literal-twin:' + ref.status.split(' ')[0])
     if got is not None:
         if (got.status == 'ok') != (ref.status == 'ok'):
